@@ -31,6 +31,9 @@ fn starts(ctx: &mut Ctx, flavor: Flavor) -> MPos {
 }
 
 fn one_history(ctx: &mut Ctx, flavor: Flavor, max_ops: usize) -> Option<(History, String, u64)> {
+    if ctx.miri_full() {
+        return None;
+    }
     for _ in 0..20 {
         let s = starts(ctx, flavor);
         if !s.is_valid() {
@@ -175,12 +178,12 @@ pub fn run(ctx: &mut Ctx) {
             "C13" => if i % 4 == 0 { Flavor::Cycles } else { Flavor::Mixed },
             _ => if i % 3 == 0 { Flavor::Cycles } else { Flavor::Mixed },
         };
-        let max_ops = match ctx.rng.below(4) {
+        let max_ops = if ctx.config == "miri" { 16 } else { match ctx.rng.below(4) {
             0 => 12,
             1 => 40,
             2 => 90,
             _ => 200,
-        };
+        } };
         if let Some((h, case, seed)) = one_history(ctx, flavor, max_ops) {
             process(ctx, &h, &case, seed);
         }
